@@ -186,7 +186,8 @@ impl Read for SimReader {
             self.record(buf.len(), pos_before, ROut::Hard(255, 0));
             return Err(io::Error::new(io::ErrorKind::Other, "sim: read-call budget exceeded (suspected livelock)"));
         }
-        if let Some(f) = self.script.faults.iter().find(|(i, _)| *i == call).map(|(_, f)| f.clone()) {
+        // once the final Ok(0) was returned the source stays exhausted: no faults after the end
+        if let Some(f) = self.script.faults.iter().find(|(i, _)| *i == call && !self.ended).map(|(_, f)| f.clone()) {
             match &f {
                 Fault::Interrupted => {
                     self.stats.interrupted += 1;
